@@ -1,5 +1,6 @@
 pub mod nums;
 pub mod strings;
+pub mod values;
 
 use crate::ev::Ctx;
 
@@ -10,6 +11,11 @@ pub const ALL: &[&str] = &[
 
 pub fn run(id: &str, ctx: &Ctx) -> bool {
     match id {
+        "C01" => values::c01(ctx),
+        "C02" => values::c02(ctx),
+        "C07" => values::c07(ctx),
+        "C09" => values::c09(ctx),
+        "C10" => values::c10(ctx),
         "C15" => nums::c15(ctx),
         "C16" => strings::c16(ctx),
         "C17" => strings::c17(ctx),
